@@ -2,6 +2,7 @@ import CandidModel.Driver.Leb
 import CandidModel.Driver.Principal
 import CandidModel.Driver.Subtype
 import CandidModel.Driver.Wire
+import CandidModel.Driver.Labels
 /-
   Line-protocol driver.  One request per line: `<op>\t<arg>\t<arg>…`; one answer per line:
   `<model answer>\t<spec answer>` (or `bad-op` for what no handler accepts — never a default).
@@ -9,7 +10,7 @@ import CandidModel.Driver.Wire
 open Candid Candid.Driver
 
 def handlers : List (String → List String → Option String) :=
-  [handleLeb, handlePrincipal, handleSubtype, handleWire]
+  [handleLeb, handlePrincipal, handleSubtype, handleWire, handleLabels]
 
 def answer (line : String) : String :=
   match line.splitOn "\t" with
